@@ -36,3 +36,33 @@ PROPS = {
         "assumptions": [],
     },
 }
+
+def _p(fn, expl, chk=False, assumptions=None):
+    d = {"families": fn, "explanation": expl, "assumptions": assumptions or []}
+    if chk:
+        d["chk"] = True
+    return d
+
+
+PROPS.update({
+    "C02": _p(inputs.c02_families, "C02_value / C02_lower / C02_attained: general proof (best-of loop invariant, completeness of the regenerated "
+              "slot tables lifted through select, sub-sequence / permutation lemmas, permutation invariance of the five-card value)."),
+    "C03": _p(inputs.c03_families, "C03_five_identity, C03_witness: the remembered candidate is a sub-sequence of the input; its descending sort is a "
+              "permutation (value invariant) and non-increasing. The reported hand is compared exactly."),
+    "C04": _p(inputs.c04_families, "C04_is_valid for any words (each differently written uniqueness test proved equivalent to NoDup, sentinel case included), "
+              "C04_validated / C04_zero_iff for any words via C01/C02's value range.", chk=True),
+    "C08": _p(inputs.c08_families, "C08_card/C08_cycle by sweep over 52 cards; C08_slots definitional; C08_relabel_invariant general for any suit "
+              "bijection (C01 for five, combs_map + C02 for six/seven)."),
+    "C09": _p(inputs.c09_families, "C09_monotone / C09_min_of_sub / C09_chain: pure logic from C02's lower bound and attainment."),
+    "C11": _p(inputs.c11_families, "C11_order general arithmetic on the layout; C11_sort for any list; sort_unstable modelled by its specification "
+              "(uniqueness of the sorted arrangement proved).",
+              assumptions=["slice::sort_unstable + reverse produce the non-increasing arrangement (library, modelled by specification)"]),
+    "C12": _p(inputs.c12_families, "C12_symbols over all scalar values (exhaustive regenerated graphs), C12_token, C12_hand, C12_tokens, C12_roundtrip.",
+              assumptions=["str::chars and str::split_whitespace / char::is_whitespace are the standard library's (whitespace set regenerated exhaustively)"]),
+    "C14": _p(inputs.c14_families, "C14_positions, C14_roundtrip, C14_word_default (complete 2^32 graph), C14_bits_default for every N."),
+    "C15": _p(inputs.c15_families, "set semantics by testbit reasoning; C15_peel and C15_peel_all by induction over the deck list / peel history."),
+    "C16": _p(inputs.c16_families, "C16_* for every N from C15's peel lemmas and C14."),
+    "C19": _p(inputs.c19_families, "C19_refines by induction over the history; readers; select.",
+              assumptions=["the containers do not branch on the stored values (sentinel and random words exercised)"]),
+    "C20": _p(inputs.c20_families, "C20_bits/accessors/strip/order: general from layout < 2^29 and bit lemmas."),
+})
